@@ -22,7 +22,15 @@ const ParseFlags = syntax.Perl
 // Pattern draws a pattern: grammar (wGrammar) or template+mutations (wTemplate).
 // The result is always accepted by regexp/syntax (invalid mutations are dropped).
 func Pattern(t *rapid.T, o Opts, wGrammar, wTemplate int) PatternInfo {
-	if pick(t, "src", wGrammar, wTemplate) == 0 {
+	src := pick(t, "src", wGrammar, wTemplate, (wGrammar+wTemplate+2)/3)
+	if src == 2 {
+		p := Tiny(t, o)
+		if _, err := syntax.Parse(p, flagsFor(o)); err != nil {
+			return PatternInfo{Pattern: "a", Source: "tiny", Fallback: true}
+		}
+		return PatternInfo{Pattern: p, Source: "tiny"}
+	}
+	if src == 0 {
 		p := Grammar(t, o)
 		if _, err := syntax.Parse(p, flagsFor(o)); err != nil {
 			// the grammar is built to be valid; a residual invalid text (e.g. repeat count
@@ -202,6 +210,10 @@ func Haystack(t *rapid.T, re *syntax.Regexp, ho HOpts) []byte {
 	maxLen := ho.MaxLen
 	if maxLen == 0 {
 		maxLen = 4096
+	}
+	// short patterns: half of the haystacks are short strings over the pattern's letters
+	if re != nil && len(re.String()) <= 24 && rapid.IntRange(0, 1).Draw(t, "tinyhay") == 0 {
+		return TinyHaystack(t, re)
 	}
 	var alpha []rune
 	if re != nil {
